@@ -37,12 +37,14 @@ type WK struct {
 	P  bool `json:"p"`
 	Ts OptI `json:"ts"`
 	Du OptI `json:"du"`
+	Uk int  `json:"uk"` // unknown field 1000 (varint) carried by the nested message itself, 0 = none
 }
 type NN struct {
 	P  bool `json:"p"`
 	A  int  `json:"a"`
 	Fl Flt  `json:"fl"`
 	Ts OptI `json:"ts"`
+	Uk int  `json:"uk"` // unknown field 1000 of .corecursive
 }
 type U struct {
 	K   int `json:"k"`
@@ -58,6 +60,7 @@ type Ch struct {
 	Nm int  `json:"nm"`
 	Ct OptI `json:"ct"`
 	On int  `json:"on"`
+	Uk int  `json:"uk"` // unknown field 1000 of the Change message
 }
 type Msg struct {
 	Ty string `json:"ty"`
@@ -157,7 +160,16 @@ func str(k int) string {
 }
 
 func (e embed) wk(w WK) *testproto.WellKnown {
-	return &testproto.WellKnown{DefaultTimestamp: e.ts(w.Ts), DefaultDuration: e.du(w.Du)}
+	m := &testproto.WellKnown{DefaultTimestamp: e.ts(w.Ts), DefaultDuration: e.du(w.Du)}
+	setUnknown(m, w.Uk)
+	return m
+}
+
+// setUnknown gives a (nested) message the unknown varint field 1000 = v.
+func setUnknown(m proto.Message, v int) {
+	if v != 0 {
+		m.ProtoReflect().SetUnknown(unknown(Unk{A: v}))
+	}
 }
 
 func unknown(u Unk) []byte {
@@ -196,6 +208,7 @@ func (e embed) conc(a Msg) proto.Message {
 			case 2:
 				ch.OnOff = &traits.OnOff{State: traits.OnOff_OFF}
 			}
+			setUnknown(ch, c.Uk)
 			p.Changes = append(p.Changes, ch)
 		}
 		m = p
@@ -237,6 +250,7 @@ func (e embed) conc(a Msg) proto.Message {
 			if a.Nn.Ts.Has {
 				inner.DefaultWellKnown = &testproto.WellKnown{DefaultTimestamp: e.ts(a.Nn.Ts)}
 			}
+			setUnknown(inner, a.Nn.Uk)
 			t.DefaultNestedMessage = &testproto.TestAllTypes_NestedMessage{A: int32(a.Nn.A), Corecursive: inner}
 		}
 		switch a.U.K {
